@@ -39,9 +39,10 @@ ASSUMPTIONS = [
 ]
 
 C30_CODES = [
-    "new", "new", "add", "add", "set", "set", "append", "append", "append", "remove", "replace", "replace", "clear",
-    "setparent", "setparent", "setparent", "clearparent", "tagadd", "tagadd", "tagadd", "tagremove", "pk", "pk", "fav",
-    "delete", "delete", "delete", "expunge", "merge", "flush", "flush", "flush", "commit", "commit", "rollback", "expire", "read",
+    "new", "add", "set", "set", "append", "append", "append", "remove", "remove", "replace", "replace", "clear",
+    "setparent", "setparent", "setparent", "clearparent", "tagadd", "tagadd", "tagremove", "tagremove", "pk", "pk", "pk", "fav",
+    "delete", "delete", "delete", "expunge", "merge", "merge", "flush", "flush", "flush", "flush", "commit", "commit", "rollback",
+    "expire", "read",
 ]
 
 
